@@ -77,6 +77,84 @@ META = {
              "recorded entries), scrypt/blake2/sha256d parameters, the wire format of the 14 consensus classes incl. the VLQ encoder, and the "
              "genesis literal have not drifted from /verif/reference (recorded network data, the oracle the property names).",
         note=TRUST + "NOT decided: that recorded real blocks pass scrypt-based validation (needs running scrypt = execution)."),
+    "C03": dict(
+        technique="typed who-may-write (immutability); def-use source sets over normalised constructor arguments (dependence rule); sibling formula agreement",
+        text="Decides that chain-state snapshots are never written after construction anywhere in the repository, that each per-block view "
+             "built by add_block_no_validation depends only on (the parent's view, the block) and equals the specified formula keyed by the "
+             "block's parent id (never the current head, tips or arrival order), that the balance view is a cached replay from genesis with "
+             "the pre-block unspent set, and that the unspent-set and balance updaters agree on domains, reward test and references.",
+        note=TRUST + "By induction over the chain these premises make each view a function of the chain; no tree is replayed. immutables.Map persistence is trusted."),
+    "C04": dict(
+        technique="decision-table extraction: normalised conditional expressions of the returned state vs the specification's tables",
+        text="Decides that the head update is exactly: new block if there is no head or it extends the head, else new block iff its work is "
+             "STRICTLY greater than the head's, else unchanged; work = height; tips' = tips - parent + new; index(new) = index(parent) + "
+             "{height: new}; readers index by the head id. These are the premises of the inductive argument in DESIGN.md for every arrival order.",
+        note=TRUST + "No block tree is enumerated; the induction from the tables to 'first-seen block of greatest work' is on paper."),
+    "C09": dict(
+        technique="typestate automaton over the structured flow graph with exceptional edges at message-dependent may-raise calls",
+        text="Decides, over all paths of the relay handler including exceptional ones, that every effect is behind duplicate test, orphan drop "
+             "and structural validation; that serving-as-validated, flushing and relaying happen only after validate_block_in_coinstate(block, "
+             "prior state) completed (non-bulk); that no exit leaves an unvalidated block in the store's write buffer and adopted blocks are "
+             "flushed; one relay site under (new head, not a response). Found genuine defect D3 (buffer-before-apply), repaired by a fix: commit.",
+        note=TRUST + "Each delivery is one run of the handler from a state re-established by the previous run; sequences of deliveries are not executed."),
+    "C10": dict(
+        technique="shared relay typestate (C09); normalised formula matching of the inventory protocol",
+        text="PARTLY claimed. Decides the local clauses: a block is relayed only when new and newly head, a transaction only when new and "
+             "admitted; the inventory answer (start = height+1, on-active-chain test, empty when nothing newer, ids start..min(start+500, "
+             "head+1)), inventory consumption (size limit, request-once flags, immediate next batch), locator heights and the active-fetch "
+             "predicate are the stated formulas.",
+        note=TRUST + "NOT decided: convergence of several nodes under every interleaving of deliveries and timer steps, completeness of the "
+                     "fetched chain at quiescence — these quantify over schedules and need a model checker or simulator (a different technique family)."),
+    "C11": dict(
+        technique="syntactic premises P1–P7 of a chunk-independence argument, checked on the parser's event table (def-use of the chunk, guard/consume pairing, monotone guards)",
+        text="Decides the premises from which fragmentation-independence follows for every byte stream and every cut: the chunk is only "
+             "appended; every decision reads parser state only; each stage consumes exactly the prefix its >= guard covers; length tests are "
+             "monotone; after a frame both flags are reset and parsing re-enters; stages run magic -> length -> body; wrong magic and "
+             "over-limit length are refused at their stage. The implication premises => property is the proof sketch in DESIGN.md.",
+        note=TRUST + "The proof is on paper; the checker decides its premises. No stream is parsed."),
+    "C12": dict(
+        technique="producer/validator call-identity agreement; exact-guard matching; ordering and data-flow obligations on the found-block handler (heap-aware summaries)",
+        text="Decides that the candidate's fields come from the functions the validator recomputes them with (same argument roles), reward = "
+             "subsidy + fees exactly and the validator's comparators are strict (equality accepted), time = max(now, parent+1) from the same "
+             "state, and in the found-block handler: add_block (validating) first, the state handed to the network layer IS its result, then "
+             "broadcast, save, flush, all unconditional. Found genuine defect D4 (publish-before-adopt), repaired by a fix: commit.",
+        note=TRUST + "That assembly succeeds on concrete pools rests on C13's invariant; no block is mined."),
+    "C13": dict(
+        technique="ordering obligations on admission; repository-wide typed who-may-write; eviction-after-every-store rule",
+        text="Decides that the pool invariant is inductive over the pool's only writers: the single append happens under the lock after the "
+             "structural, in-state (head id and state of the same served coinstate) and whole-pool duplicate validators completed, with no "
+             "handler falling through; every store to the served state is followed under the lock by filtering the pool with the in-state "
+             "validator; no other function in the repository writes pool or served state; relay only when admitted.",
+        note=TRUST + "Thread interleavings beyond 'both writers hold self.lock' are not analysed."),
+    "C14": dict(
+        technique="failure-atomicity typestate with exceptional edges; provenance and linear normal forms of inputs / amounts; signing-loop agreement with the validator",
+        text="Decides that no exceptional exit of the spend builder (explicit or from any may-raise call such as signing) follows an un-undone "
+             "change of the wallet's used-outputs record; inputs are references owned by wallet keys at the head and not used before; return "
+             "only when collected >= amount + fee, first output = amount to recipient, change iff non-zero of exactly collected-amount-fee; one "
+             "signature per input with the owner's key over the message the validator verifies. Found genuine defect D5, repaired by a fix: commit.",
+        note=TRUST + "Concrete output distributions are not enumerated; per-key balances list exactly the unspent outputs (C03)."),
+    "C15": dict(
+        technique="dump/load mirror tables; hand-out/save typestate at every call site; atomic-replace rule + who-may-write of the final path; partition transfer patterns",
+        text="Decides that load inverts dump key by key, a hand-out pops the key and annotates it (re-use only when none is unused), at all 4 "
+             "call sites save_wallet of the same wallet follows before the key can leave the process or the function returns, wallet.json is "
+             "only ever the target of os.replace of a closed side file, every writer of the three key collections is a partition-preserving "
+             "transfer, and the balance sums the head's per-key balance over all keys.",
+        note=TRUST + "os.replace atomicity is trusted; crashes are not injected (the rule is the static form of 'at every instant')."),
+    "C19": dict(
+        technique="typed who-may-write; inductive disjointness facts per writer over its flow graph (havoc at calls reaching other writers); formula matching; atomic-replace rule",
+        text="Decides that only 6 analysed functions write the two peer maps and each preserves keys(connected) ∩ keys(disconnected) = ∅ for the "
+             "key it writes (the condition whose violation stops the network loop); back-off = min(10·2^k, 1800) with give-up beyond the "
+             "configured count, attempt stamped before connecting, k incremented only on outgoing disconnect without greeting and reset on "
+             "greeting, fields carried through connect/disconnect; self-connection recorded, dropped, skipped; peers file atomically replaced, "
+             "<= 100, newest first.",
+        note=TRUST + "Sockets and clock progressions are not modelled."),
+    "C20": dict(
+        technique="exception-escape analysis (may-raise summaries vs enclosing catch-all); who-may-call closure; dispatch exhaustiveness; shared typestate rules",
+        text="Decides that every peer-driven call of the selector-event handler (recv, receive-data, can-send) and everything else in it that may "
+             "raise is inside a non-re-raising `except Exception`, whose handlers disconnect only the offending peer through a disconnect that "
+             "cannot raise; the 14 message-driven functions are reachable only through it; dispatch covers all 7 message classes, enforces "
+             "greeting-first and raises on unknown types; state changes go through validated entry points; decoder loops are bounded by the frame.",
+        note=TRUST + "CPU time of decoding is a runtime quantity (noted, not armed); accept()/manager steps run outside the catch-all but process no peer payload."),
 }
 
 NOT_YET = "not claimed yet: rule module not implemented in this revision (see DESIGN.md section 5 for the planned rules)"
